@@ -687,6 +687,23 @@ package generator
 //@   ensures [C20] reuse-only-on-full-match: result1 == nil && outputName == "a.go" && packageName == "p1" && map_has(g.outputs, "s1") && out_file(g.outputs["s1"]) == "a.go" ==> result0 == g.outputs["s1"] && !map_has(g.outputs, "new")
 //@   ensures [C20] otherwise-registered-under-the-id: result1 == nil && !(outputName == "a.go" && packageName == "p1" && map_has(g.outputs, "s1")) ==> map_has(g.outputs, "new") && g.outputs["new"] == result0
 
+// The root type's name: the mapping for exactly this schema id if it names one
+// (--schema-root-type), else the title under --struct-name-from-title, else the
+// file name (C16: each option changes only the identifier it names; C20).
+//@ func (*Generator).getRootTypeName
+//@   props C16 C20 C14
+//@   option shape-zero schema. schema.ObjectAsType.
+//@   shape g = gen() | gen(map:s2=p2,b.go,Root2) | gen(map:s2=p2,b.go,) | gen(map:s3=p3,c.go,Root3;map:s2=p2,b.go,Root2) | gen(map:s3=p3,c.go,Root3)
+//@   shape schema = new
+//@   shape schema.ID = "s2" | "s9"
+//@   shape schema.ObjectAsType = new
+//@   shape schema.ObjectAsType.Title = "" | "My title"
+//@   shape fileName = "dir/f.json"
+//@   assigns nothing
+//@   ensures [C16,C20] mapped-root-type-wins: schema.ID == "s2" && len(g.config.SchemaMappings) >= 1 && g.config.SchemaMappings[len(g.config.SchemaMappings) - 1].RootType == "Root2" ==> result == "Root2"
+//@   ensures [C16,C20] title-when-asked-for: !(schema.ID == "s2" && len(g.config.SchemaMappings) >= 1 && g.config.SchemaMappings[len(g.config.SchemaMappings) - 1].RootType == "Root2") && g.config.StructNameFromTitle && schema.Title != "" ==> result == identifierize_of(schema.Title)
+//@   ensures [C16,C20] file-name-otherwise: !(schema.ID == "s2" && len(g.config.SchemaMappings) >= 1 && g.config.SchemaMappings[len(g.config.SchemaMappings) - 1].RootType == "Root2") && !(g.config.StructNameFromTitle && schema.Title != "") ==> result == pure_result("(*Caser).IdentifierFromFileName", fileName)
+
 //@ func (*Generator).findOutputFileForSchemaID
 //@   props C20 C12
 //@   option both-map-orders
